@@ -49,8 +49,11 @@ def run_case(case):
         }
         import numpy
         for name, conv in (("np.int64", numpy.int64), ("np.int32", numpy.int32), ("np.intp", numpy.intp)):
-            spell["4" + name] = _c(*[conv(x) for x in t])
-            spell["voigt2" + name] = _c(*[conv(x) for x in vp])
+            for label, args in (("4" + name, [conv(x) for x in t]), ("voigt2" + name, [conv(x) for x in vp])):
+                try:
+                    spell[label] = _c(*args)
+                except Exception as ex:
+                    viol.append(V(f"c10:spelling-rejected:{label}", f"c_{tuple(args)} (numpy integer spelling of {t}) raised {ex!r}"))
         for name, s in spell.items():
             if s != k or hash(s) != hash(k):
                 viol.append(V(f"c10:spelling:{name}", f"{name} spelling of {t} gives {s!r} != {k!r}"))
@@ -167,6 +170,11 @@ def reject_cases():
                     out.append({"kind": "reject", "what": "e", "args": ["%d%d" % tuple(pair)]})
                     out.append({"kind": "reject", "what": "c", "args": ["%d%d12" % tuple(pair)]})
                     out.append({"kind": "reject", "what": "c", "args": ["12%d%d" % tuple(pair)]})
+    for a in (10, 11, 12, 13, 21, 22, 23, 31, 32, 33, 44, 66):
+        for b in (1, 4, 6, 12, 23, 66):
+            out.append({"kind": "reject", "what": "c", "args": [a, b]})
+            out.append({"kind": "reject", "what": "c", "args": [b, a]})
+        out.append({"kind": "reject", "what": "e", "args": [a, 1]})
     for a in (-1, 0, 7, 8):
         for b in range(-1, 9):
             for pair in ([a, b], [b, a]):
